@@ -94,6 +94,17 @@ def _is_overlay_text(unit, span, snippet):
     return inner not in src_line and inner.replace(" ", "") not in src_line.replace(" ", "")
 
 
+def _is_hint_text(fn, snippet):
+    """True if the failing assert / call is part of a proof hint spliced in by the overlay (not code from /repo)."""
+    sn = " ".join(snippet.split())
+    if not sn:
+        return False
+    for ins in fn.get("inserts", []):
+        if sn in " ".join(ins["text"].split()):
+            return True
+    return False
+
+
 def _canary_of_line(unit, line):
     for c in unit.canaries:
         if c["out_first"] <= line <= c["out_last"]:
@@ -226,7 +237,7 @@ def run_unit(name, repo=None, rlimit=None, outdir=None, extra_args=(), solver=No
             if len(ps["text"]) > 1:
                 snippet += " ..."
         explicit = kind in ("post", "inv_entry", "inv_preserve", "decreases") or (kind == "pre" and tags)
-        if tags is None and kind in ("assert", "pre") and fn is not None and _is_overlay_text(unit, ps, snippet):
+        if tags is None and kind in ("assert", "pre") and fn is not None and _is_hint_text(fn, snippet):
             # a proof hint spliced in by the overlay failed: every clause of the function may lean on it
             tags = list(fn["props"])
             label = "hint:" + _norm(snippet, 50)
@@ -312,7 +323,8 @@ def run_unit(name, repo=None, rlimit=None, outdir=None, extra_args=(), solver=No
                 pass
     # ---- split attribution: one run per tagged ensures clause of every function that failed or hit the rlimit
     if out is not None and os.environ.get("VERIF_NO_SPLIT") != "1":
-        need = set(ob["fn"] for ob in res.failures if ob["fn"] and ob["kind"] == "post")
+        # any failure in a function may mask later ones (Verus stops after --multiple-errors): re-check every clause alone
+        need = set(ob["fn"] for ob in res.failures if ob["fn"] and not ob.get("hint_fail"))
         for h in hard:
             if h.startswith("rlimit"):
                 for f in unit.fns:
